@@ -1,6 +1,6 @@
 (* C20 -- sending applies backpressure and never hangs on a dead connection.  Statements only; proofs in Proofs/C20_*.v. *)
 From Coq Require Import List Arith Bool.
-From EN Require Import Conc.FlowControl Proofs.C20_flow Proofs.C20_adapter Gen.ParamsC20 Proofs.C20_repo.
+From EN Require Import Conc.FlowControl Proofs.C20_flow Proofs.C20_adapter Gen.ParamsC20 Proofs.C20_repo Proofs.C20_closed.
 Import ListNotations.
 
 (* WriteFlowControl, every label sequence (drain / pause / resume / connection_lost / is_closing / cancel of ANY parked
@@ -114,6 +114,27 @@ Theorem send_returns_only_when_flushed_in_repo :
     ad_step a l = Some (a', o) -> In (ODrain t ROk) o -> bytes_of t (a_buf a') = 0.
 Proof. exact send_returns_only_when_flushed_in_repo_proof. Qed.
 Print Assumptions send_returns_only_when_flushed_in_repo.
+
+(* A send on a closed / dead adapter never suspends for ever.  ANY transport configuration, every label sequence.  Once the
+   transport is dead (close() with nothing buffered, the end of a closing flush, _force_close / abort):
+   - nothing is buffered any more;
+   - if connection_lost has not been delivered yet, its delivery is enabled and leaves nobody parked;
+   - once it has been delivered nobody is parked, and a new send (its write is dropped by the transport) yields once
+     (is_closing()) and, woken up, raises the connection error at once: it is idle again, nothing was buffered. *)
+Theorem closed_transport_sends_fail_fast :
+  forall (c : tcfg) (n : nat) (ls : list alabel) (a : ad), ad_run (ad_init c n) ls = Some a -> a_dead a = true ->
+    a_buf a = [] /\
+    (w_lost (a_w a) = false ->
+       forall e, exists a', ad_step a (ALost e) = Some (a', []) /\
+                            forall t f, task (a_w a') t <> Some (TParked f FPending)) /\
+    (w_lost (a_w a) = true ->
+       (forall t f, task (a_w a) t <> Some (TParked f FPending)) /\
+       forall t n k, task (a_w a) t = Some TIdle ->
+         exists a1 a2 r, ad_step a (ASend t n k) = Some (a1, [OParked t]) /\
+                         ad_step a1 (AWake t) = Some (a2, [ODrain t r]) /\ (r = RConnExc \/ r = RErrno) /\
+                         task (a_w a2) t = Some TIdle /\ a_buf a2 = []).
+Proof. exact closed_transport_sends_fail_fast_proof. Qed.
+Print Assumptions closed_transport_sends_fail_fast.
 
 (* H_pause is satisfiable and the theorem is not vacuous: a partial write parks the sender, the flush resumes it *)
 Example adapter_run_example :
